@@ -45,12 +45,12 @@ const prelude = `(set-option :produce-models true)
 (define-sort ByteArr () (Array (_ BitVec 64) (_ BitVec 8)))
 `
 
-func declsFor(terms []*Term) string { return declsWith(terms, nil) }
+func declsFor(terms []*Term) string { return declsWith(terms, nil, true) }
 
 // declsWith declares every free symbol of the terms; abbreviations (leaf.Def != nil) become define-fun, emitted
 // after everything their definitions mention. render, if given, renders definition bodies (used by the
 // arithmetic abstraction).
-func declsWith(terms []*Term, render func(*Term) string) string {
+func declsWith(terms []*Term, render func(*Term) string, withQAxioms bool) string {
 	leaves := map[string]*Term{}
 	for _, t := range terms {
 		t.leaves(leaves)
@@ -67,7 +67,7 @@ func declsWith(terms []*Term, render func(*Term) string) string {
 		fmt.Fprintf(&sb, "(declare-fun %s (%s) %s)\n", d.name, strings.Join(d.args, " "), d.ret)
 	}
 	ufMu.Unlock()
-	var defs []*Term
+	var defs, qdefs []*Term
 	for _, n := range names {
 		if strings.HasPrefix(n, "(") {
 			continue
@@ -77,6 +77,9 @@ func declsWith(terms []*Term, render func(*Term) string) string {
 			continue
 		}
 		fmt.Fprintf(&sb, "(declare-const %s %s)\n", n, sortOf(leaves[n]))
+		if leaves[n].QDef != nil {
+			qdefs = append(qdefs, leaves[n])
+		}
 	}
 	// definitions in creation order: a definition only mentions earlier ones
 	sort.Slice(defs, func(i, j int) bool { return defNum(defs[i]) < defNum(defs[j]) })
@@ -87,8 +90,18 @@ func declsWith(terms []*Term, render func(*Term) string) string {
 		}
 		fmt.Fprintf(&sb, "(define-fun %s () %s %s)\n", d.Leaf, sortOf(d), body)
 	}
+	if withQAxioms {
+		for _, q := range qdefs {
+			body := q.QDef.String()
+			if render != nil {
+				body = render(q.QDef)
+			}
+			fmt.Fprintf(&sb, "(assert (= %s %s))\n", q.Leaf, body)
+		}
+	}
 	return sb.String()
 }
+
 
 func defNum(t *Term) int {
 	n := 0
@@ -164,7 +177,7 @@ func ScriptAbs(asserts []*Term) string {
 		var b strings.Builder
 		renderAbs(t, &b, ufs)
 		return b.String()
-	})
+	}, true)
 	if len(ufs) == 0 {
 		return ""
 	}
@@ -182,6 +195,21 @@ func ScriptAbs(asserts []*Term) string {
 		}
 	}
 	sb.WriteString(body.String())
+	sb.WriteString("(check-sat)\n")
+	return sb.String()
+}
+
+// ScriptNoQ is Script without any quantifier: the caller drops quantified assertions, and the defining axioms
+// of quantified-fact symbols are left out (the symbols stay free). A sound weakening of the hypotheses.
+func ScriptNoQ(asserts []*Term) string {
+	var sb strings.Builder
+	sb.WriteString(prelude)
+	sb.WriteString(declsWith(asserts, nil, false))
+	for _, a := range asserts {
+		sb.WriteString("(assert ")
+		sb.WriteString(a.String())
+		sb.WriteString(")\n")
+	}
 	sb.WriteString("(check-sat)\n")
 	return sb.String()
 }
@@ -388,7 +416,7 @@ func (s *Inc) Sat(asserts []*Term) bool {
 	s.declare(asserts)
 	var want []*Term
 	for _, a := range asserts {
-		if a.IsTrue() || strings.Contains(a.String(), "(forall ") {
+		if a.IsTrue() || a.hasQ {
 			continue // quantified facts are dropped for pruning (over-approximation of feasibility)
 		}
 		want = append(want, a)
